@@ -195,7 +195,9 @@ class CHECK(Check):
                   "ThresholdOptimizer, sample_params that is no dict / names an unknown metric / holds a non-dict) forces rejection; the "
                   "constraint x objective table, the bounds/costs/weight conditions and the degenerate-label guard are generated "
                   "from the source, as are the check_is_fitted guard of every prediction entry point, the keyword values of the "
-                  "prediction-time _validate_and_reformat_input call and the sample_params checks of MetricFrame. Tie: one-defect malformed stream and valid stream through MetricFrame, the six moments' "
+                  "prediction-time _validate_and_reformat_input call and the sample_params checks of MetricFrame; the BODY of "
+                  "_validate_and_reformat_input is lifted as an ordered list of checks (condition, exception kind; label set; check_array "
+                  "keywords) which the model runs, with a proved bridge to the hand-written reading. Tie: one-defect malformed stream and valid stream through MetricFrame, the six moments' "
                   "load_data, ExponentiatedGradient/GridSearch/ThresholdOptimizer.fit, the constructors, CorrelationRemover and "
                   "predict-before-fit of every estimator, in list/ndarray/Series/DataFrame/dict containers.")
     design_ref = "DESIGN.md section 4, C20"
@@ -214,7 +216,9 @@ class CHECK(Check):
             "TO, InterpolatedThresholder, EG, GS, CorrelationRemover, adversarial classifier and regressor) before fit in every "
             "run; ThresholdOptimizer.predict/_pmf_predict with sensitive_features off by k or None (fitted and unfitted) in "
             "every vector container; MetricFrame sample_params: None, valid, {}, list/tuple/str/number/[] instead of a dict, a key "
-            "that is no metric name, a per-metric list/number/str; about 40% of the cases carry no defect (must be accepted); distinct = distinct case; non-trivial = all. "
+            "that is no metric name, a per-metric list/number/str; _validate_and_reformat_input called directly (5% of the cases) with "
+            "each of the 8 combinations of expect_y / expect_sensitive_features / enforce_binary_labels on the same one-defect data "
+            "plus a zero-row X and an empty y (numeric labels; ndarray / Series labels when expect_y=False); about 40% of the cases carry no defect (must be accepted); distinct = distinct case; non-trivial = all. "
             "Fixed, not varied: X has 2 columns and is an ndarray or a DataFrame (never a list of lists); labels are rendered as "
             "int, float or bool; group values as int or str; the moments are default-constructed and tested through load_data, "
             "ExponentiatedGradient / GridSearch always wrap DemographicParity(), ThresholdOptimizer uses grid_size=20, "
@@ -227,7 +231,9 @@ class CHECK(Check):
                    "before fit that does not raise NotFittedError)")
     trusted = ("sklearn check_consistent_length / check_array / check_is_fitted and pandas column assignment raise on the length "
                "mismatches they are given (modelled as a comparison of lengths)",
-               "the descriptor abstraction: a non-numeric or NaN label is sent to the model as the value 2; group labels as ids")
+               "the descriptor abstraction: a non-numeric or NaN label is sent to the model as the value 2; group labels as ids",
+               "the meaning of the lifted atoms on a descriptor (Validation.evalAtom): y is a flat numeric vector (shape test and "
+               "check_array(y) hold), features are group ids (their check_array holds), check_array(X) holds iff X has a row")
     assumptions = ("out-of-range is limited to what the documentation defines (ratio_bound in (0,1], costs, constraint_weight in "
                    "[0,1], difference_bound >= 0, ratio_bound_slack >= 0 when a ratio bound is given — a negative slack makes "
                    "project_lambda lower the Lagrangian, C07)",
@@ -332,6 +338,35 @@ class CHECK(Check):
         elif defect == "cf":
             case["cf"] = [rng.randrange(2) for _ in range(n)]
         case["defect"] = defect
+        return case
+
+    def gen_vsrc(self, rng):
+        """`_validate_and_reformat_input` called DIRECTLY with every combination of its three flags (the lifted check list
+        `Generated.ValidateSrc.checks` run by `validateSrc`): the data of a mitigator call with at most one defect, plus a
+        zero-row X and an empty y.  With expect_y=False the labels are handed over as ndarray / Series (the source reads
+        `y.shape` of the raw argument there); labels are numeric (a string label is refused by `check_array(dtype='numeric')`
+        whatever the flags say, which the descriptor does not see)."""
+        case = self.gen_mit(rng, ep="moment:DemographicParity",
+                            defect=rng.choice([None, None, None, "len:y", "len:sf", "len:cf", "len:X", "label", "label", "nosf", "noy"]))
+        case["ep"] = "vsrc"
+        case["flags"] = [rng.random() < 0.6, rng.random() < 0.6, rng.random() < 0.6]
+        if case["y"] is not None:
+            case["y"] = [3 if isinstance(v, str) and v.startswith("s:") else v for v in case["y"]]
+        if case["defect"] is not None and case["defect"].startswith("label:s:"):
+            case["defect"] = "label:3@" + case["defect"].split("@")[1]
+        r = rng.random()
+        if case["defect"] is None and r < 0.10:
+            case["X"], case["n"], case["defect"] = [], 0, "rows0"
+            q = rng.random()
+            if q < 0.4:                 # everything consistently empty
+                case["sf"] = []
+                case["y"] = [] if rng.random() < 0.5 else None
+                case["cf"] = None
+            elif q < 0.7:               # nothing but the zero-row X (accepted by every other check when nothing is expected)
+                case["sf"], case["sf_mode"], case["y"], case["cf"] = None, rng.choice(["none", "omit"]), None, None
+                case["flags"] = [False, False, case["flags"][2]]
+        elif case["defect"] is None and r < 0.18:
+            case["y"], case["defect"] = [], "emptyy"
         return case
 
     def gen_frame(self, rng, defect=None):
@@ -580,8 +615,10 @@ class CHECK(Check):
         yield from self.table_sweep(rng)
         while True:
             r = rng.random()
-            if r < 0.5:
+            if r < 0.45:
                 yield self.gen_mit(rng)
+            elif r < 0.5:
+                yield self.gen_vsrc(rng)
             elif r < 0.75:
                 yield self.gen_frame(rng)
             elif r < 0.88:
@@ -620,7 +657,7 @@ class CHECK(Check):
     # ================================================================ shrinking
     def shrink(self, case):
         ep = case["ep"]
-        if ep in MIT_EPS:
+        if ep in MIT_EPS or ep == "vsrc":
             for key, simple in (("y", "list"), ("sf", "list"), ("cf", "list"), ("X", "ndarray")):
                 if case["cont"].get(key) != simple:
                     yield dict(case, cont=dict(case["cont"], **{key: simple}))
@@ -659,6 +696,25 @@ class CHECK(Check):
     def spec(self, case):
         """(well formed?, expected outcome class when ill formed or None, relation name)"""
         ep = case["ep"]
+        if ep == "vsrc":
+            # the documented contract of _validate_and_reformat_input, flag by flag (independent of the model and the lifter)
+            ey, es, eb = case["flags"]
+            n = len(case["X"])
+            y, sf, cf = case["y"], case["sf"], case["cf"]
+            rel = "C20.validateSrc_ok_iff_flags"
+            if ey and (y is None or len(y) == 0):
+                return False, None, rel + "(y missing or empty under expect_y)"
+            if ey and eb and not all(label_is_binary(v) for v in y):
+                return False, None, rel + "(label outside {0,1} under enforce_binary_labels)"
+            if n == 0:
+                return False, None, rel + "(X without rows)"
+            if y is not None and len(y) != n:
+                return False, None, rel + "(rows of y)"
+            if sf is None and es:
+                return False, None, rel + "(sensitive features missing under expect_sensitive_features)"
+            if (sf is not None and len(sf) != n) or (cf is not None and len(cf) != n):
+                return False, None, rel + "(rows of a feature)"
+            return True, None, rel
         if ep in MIT_EPS:
             n = len(case["X"])
             y, sf, cf = case["y"], case["sf"], case["cf"]
@@ -743,7 +799,7 @@ class CHECK(Check):
     def lines(self, case, o):
         ep = case["ep"]
         opt = lambda v, enc: "none" if v is None else enc(v)  # noqa: E731
-        if ep in MIT_EPS:
+        if ep in MIT_EPS or ep == "vsrc":
             def lab(v):
                 lv = label_value(v)
                 if isinstance(lv, str) or (isinstance(lv, float) and math.isnan(lv)):
@@ -754,6 +810,9 @@ class CHECK(Check):
                 return proto.lst([lab(v) for v in y])
             n = len(case["X"])
             y, sf, cf = opt(case["y"], labs), opt(case["sf"], proto.lst), opt(case["cf"], proto.lst)
+            if ep == "vsrc":
+                ey, es, eb = case["flags"]
+                return [f"val.src {proto.b(ey)} {proto.b(es)} {proto.b(eb)} {n} {y} {sf} {cf}"]
             if ep == "to":
                 return [f"val.to 1 {proto.s(case['constraint'])} {proto.s(case['objective'])} {n} {y} {sf} {cf}"]
             return [f"val.mit {n} {y} {sf} {cf}"]
@@ -817,6 +876,19 @@ class CHECK(Check):
         from fairlearn.postprocessing import ThresholdOptimizer
         from fairlearn.preprocessing import CorrelationRemover
         ep = case["ep"]
+        if ep == "vsrc":
+            from fairlearn.utils._input_validation import _validate_and_reformat_input
+            ey, es, eb = case["flags"]
+            X = render_X(case["X"], case["cont"]["X"])
+            cy = case["cont"]["y"] if ey or case["cont"]["y"] in ("ndarray", "series") else "ndarray"
+            y = None if case["y"] is None else render_vec(case["y"], cy, None, "label")
+            kw = {}
+            if case["sf_mode"] != "omit":
+                kw["sensitive_features"] = None if case["sf"] is None else render_vec(case["sf"], case["cont"]["sf"], "sf", case["sf_enc"])
+            if case["cf"] is not None:
+                kw["control_features"] = render_vec(case["cf"], case["cont"]["cf"], "cf", "int")
+            return {"out": outcome(lambda: _validate_and_reformat_input(X, y, expect_y=ey, expect_sensitive_features=es,
+                                                                         enforce_binary_labels=eb, **kw))}
         if ep in MIT_EPS:
             X = render_X(case["X"], case["cont"]["X"])
             y = None if case["y"] is None else render_vec(case["y"], case["cont"]["y"], None, "label")
@@ -1008,6 +1080,8 @@ class CHECK(Check):
         d = case.get("defect")
         dk = "none" if d is None else str(d).split(":")[0] + (":" + str(d).split(":")[1] if str(d).startswith("len:") else "")
         tags = [f"ep={ep}", f"defect={dk}", f"result={o.get('out', 'crash')}"]
+        if ep == "vsrc":
+            tags.append("flags=" + "".join("1" if f else "0" for f in case["flags"]))
         if ep in MIT_EPS:
             tags += [f"cont.y={case['cont']['y']}", f"cont.sf={case['cont']['sf']}", f"cont.X={case['cont']['X']}"]
             if d and str(d).startswith("len:"):
